@@ -10,10 +10,11 @@ ID = "C01"
 LEVEL = "exploration"
 RULE = (
     "a case = (closed program, configuration); programs as in C02 (every atom alone in 4 contexts, every ordered "
-    "pair of core atoms in module/function context; thorough: all ordered pairs and core triples); configurations "
-    "for single-atom programs: default, safe, keep_imports, preserve=all top-level names, safe+keep_imports+"
-    "preserve-all (thorough: also each single top-level name preserved and max_line_length=60); for longer "
-    "programs: default and safe; format_code is run with empty caches, original and result are executed and "
+    "pair of core atoms in module/function context; thorough: also every ordered pair of any atom with a core atom and core triples); configurations "
+    "for single-atom programs in module context: default, safe, keep_imports, preserve=all top-level names, "
+    "safe+keep_imports+preserve-all, in the other contexts default and safe (thorough: all five everywhere, plus each "
+    "single top-level name preserved and max_line_length=60); for longer programs: default in module context and "
+    "safe in function context (thorough: both in both); format_code is run with empty caches, original and result are executed and "
     "stdout compared; non-trivial = format_code changed the text"
 )
 ASSUMPTIONS = [
@@ -65,9 +66,11 @@ def make_cfg(name, src):
 def units(tier):
     for p in progs.program_space(tier):
         if len(p["atoms"]) == 1:
-            cfgs = list(CFGS1)
+            cfgs = list(CFGS1) if (p["ctx"] == "module" or tier == "thorough") else list(CFGS2)
             if tier == "thorough":
                 cfgs += ["mll60", "preserve_each"]
+        elif tier == "quick":
+            cfgs = ["default"] if p["ctx"] == "module" else ["safe"]
         else:
             cfgs = list(CFGS2)
         yield {"prog": p, "cfgs": cfgs}
